@@ -1676,7 +1676,7 @@ def run_checkout(ctx, case):  # noqa: C901, PLR0912, PLR0915
 
 
 def run_checkout_stream(ctx):
-    cases = list(CO_CORPUS) + [gen_checkout(ctx) for _ in range(ctx.n(30, 300))]
+    cases = list(CO_CORPUS) + [gen_checkout(ctx) for _ in range(ctx.n(24, 300))]
     nprob = 0
     for case in cases:
         try:
@@ -1719,7 +1719,7 @@ def run(ctx):
     gen = []
     if ctx.tier == "quick":
         bigs = [ctx.rng.choice([999, 1000, 1001]), ctx.rng.choice([998, 1998, 2001])]
-        n_small = ctx.n(50, 400)
+        n_small = ctx.n(40, 400)
     else:
         bigs = [0, 1, 998, 999, 1000, 1001, 1997, 1998, 1999, 2000, 2001, 2997, 3000, 3000]
         n_small = ctx.n(70, 400)
